@@ -11,15 +11,20 @@ package main
 
 import (
 	"bytes"
+	"context"
 	"crypto/sha256"
 	"encoding/hex"
 	"encoding/json"
 	"fmt"
+	"net/http"
+	"reflect"
 	"strings"
 	"sync"
 
+	"github.com/thushan/olla/internal/adapter/translator/anthropic"
 	"github.com/thushan/olla/internal/config"
 	"github.com/thushan/olla/internal/verif/h/lib/gate"
+	"github.com/thushan/olla/internal/verif/h/lib/hutil"
 	"github.com/thushan/olla/internal/verif/h/lib/report"
 	"github.com/thushan/olla/internal/verif/h/lib/stack"
 	"github.com/thushan/olla/internal/verif/shim/vsync"
@@ -59,7 +64,10 @@ type spec struct {
 func (s spec) body(nonce string) []byte {
 	text := nonce + strings.Repeat("x", s.pad)
 	if s.k.anthropic {
-		return []byte(fmt.Sprintf(`{"model":%q,"max_tokens":32,"messages":[{"role":"user","content":%q}]}`, s.model, text))
+		// every request declares a tool of the SAME name whose description and schema are its own: a definition
+		// remembered per tool name (or per anything else two requests share) shows in the other's upstream request
+		return []byte(fmt.Sprintf(`{"model":%q,"max_tokens":32,"messages":[{"role":"user","content":%q}],"tools":[{"name":"lookup","description":%q,"input_schema":{"type":"object","properties":{%q:{"type":"string","description":%q}},"required":[%q]}}]}`,
+			s.model, text, "tool of "+nonce, "arg_"+s.model, "field of "+nonce, "arg_"+s.model))
 	}
 	return []byte(fmt.Sprintf(`{"model":%q,"messages":[{"role":"user","content":%q}]}`, s.model, text))
 }
@@ -148,6 +156,24 @@ func (w *world) runSchedule(specs []spec, prefix []int) (*gate.Controller, []res
 	return c, results
 }
 
+// translateAlone is the reference for translated requests: the production translator, a fresh instance, one request.
+func translateAlone(body []byte) (any, error) {
+	tr := anthropic.NewTranslator(hutil.QuietLogger(), config.AnthropicTranslatorConfig{Enabled: true, MaxMessageSize: 10 << 20})
+	hr, _ := http.NewRequest("POST", "http://x/olla/anthropic/v1/messages", bytes.NewReader(body))
+	hr.Header.Set("Content-Type", "application/json")
+	out, err := tr.TransformRequest(context.Background(), hr)
+	if err != nil {
+		return nil, err
+	}
+	b, err := json.Marshal(out.OpenAIRequest)
+	if err != nil {
+		return nil, err
+	}
+	var doc any
+	err = json.Unmarshal(b, &doc)
+	return doc, err
+}
+
 func sha(b []byte) string { s := sha256.Sum256(b); return hex.EncodeToString(s[:8]) }
 
 // judge one request against the backend transcript. Returns a failure clause or "".
@@ -195,6 +221,18 @@ func (w *world) judgeOne(s spec, r result, all []result) (string, string) {
 		}
 		if doc.Model != s.model || got != want {
 			return "body-altered", fmt.Sprintf("translated request carries model %q text %.80q; client sent model %q text %.80q", doc.Model, got, s.model, want)
+		}
+		// differential: the upstream body is the translation of this client's body by a translator that has
+		// seen no other request
+		if ref, err := translateAlone(r.sent); err != nil {
+			return "body-altered", fmt.Sprintf("reference translation failed: %v", err)
+		} else {
+			var gotDoc any
+			_ = json.Unmarshal(q.Body, &gotDoc)
+			if !reflect.DeepEqual(gotDoc, ref) {
+				rb, _ := json.Marshal(ref)
+				return "translated-body-differs-from-translation-alone", fmt.Sprintf("client sent %.300q\nbackend got %.400q\nthe same body translated alone: %.400q", r.sent, q.Body, rb)
+			}
 		}
 	}
 	for _, o := range all {
